@@ -397,7 +397,87 @@ def t_plugins(repo, out):
     out.append("def initHookCalls : List String := %s" % llist(lstr(h) for h in _hook_calls(ci, "init")))
 
 
-TABLES = [t_encoder, t_namespaces, t_boolean, t_parser_sites, t_reply_status, t_options, t_plugins]
+def _self_writes(cls):
+    """(method, target, shape) for stores through `self` outside __init__."""
+    out = []
+    for f in cls.body:
+        if not isinstance(f, ast.FunctionDef) or f.name == "__init__":
+            continue
+        for n in ast.walk(f):
+            targets = []
+            if isinstance(n, ast.Assign):
+                targets = n.targets
+            elif isinstance(n, (ast.AugAssign, ast.AnnAssign)):
+                targets = [n.target]
+            for t in targets:
+                if isinstance(t, ast.Attribute) and isinstance(t.value, ast.Name) and t.value.id == "self":
+                    out.append((f.name, t.attr, "attr"))
+                if isinstance(t, ast.Subscript) and isinstance(t.value, ast.Attribute) \
+                        and isinstance(t.value.value, ast.Name) and t.value.value.id in ("self", "cls"):
+                    out.append((f.name, t.value.attr, "item"))
+            if isinstance(n, ast.Call) and isinstance(n.func, ast.Attribute) and n.func.attr in (
+                    "append", "extend", "insert", "pop", "remove", "clear", "update", "setdefault") \
+                    and isinstance(n.func.value, ast.Attribute) and isinstance(n.func.value.value, ast.Name) \
+                    and n.func.value.value.id == "self":
+                out.append((f.name, n.func.value.attr, "mutate"))
+    return out
+
+
+def t_shared_state(repo, out):
+    """C13: state written after construction on the objects all invocations of a client share."""
+    binding_files = ["suds/bindings/binding.py", "suds/bindings/document.py", "suds/bindings/rpc.py"]
+    writes = []
+    stateful = {}
+    for rel in binding_files + ["suds/bindings/multiref.py"]:
+        tree = parse(repo, rel)
+        for node in tree.body:
+            if isinstance(node, ast.ClassDef):
+                w = _self_writes(node)
+                if rel.endswith("multiref.py"):
+                    if w:
+                        stateful[node.name] = w
+                else:
+                    writes += [("%s.%s" % (node.name, m), t, k) for m, t, k in w]
+    out.append("/-- C13: stores through `self` in binding classes outside `__init__` (bindings are shared by all calls). -/")
+    out.append("def bindingMethodWrites : List (String × String × String) := %s"
+               % llist("(%s, %s, %s)" % (lstr(a), lstr(b), lstr(c)) for a, b, c in sorted(set(writes))))
+    # helper objects with mutable per-use state that a binding keeps in a field and uses in a method
+    rel = "suds/bindings/binding.py"
+    tree = parse(repo, rel)
+    cls = find_class(tree, "Binding", rel)
+    fields = {}
+    init = find_func(cls, "__init__", rel)
+    for n in ast.walk(init):
+        if isinstance(n, ast.Assign) and isinstance(n.value, ast.Call) and isinstance(n.value.func, ast.Name) \
+                and n.value.func.id in stateful:
+            for t in n.targets:
+                if isinstance(t, ast.Attribute) and isinstance(t.value, ast.Name) and t.value.id == "self":
+                    fields[t.attr] = n.value.func.id
+    uses = []
+    for f in cls.body:
+        if isinstance(f, ast.FunctionDef) and f.name != "__init__":
+            for n in ast.walk(f):
+                if isinstance(n, ast.Call) and isinstance(n.func, ast.Attribute) and isinstance(n.func.value, ast.Attribute) \
+                        and isinstance(n.func.value.value, ast.Name) and n.func.value.value.id == "self" \
+                        and n.func.value.attr in fields:
+                    uses.append((f.name, n.func.value.attr, fields[n.func.value.attr]))
+    out.append("/-- C13: calls on a binding *field* holding a helper with per-use mutable state (method, field, class). -/")
+    out.append("def sharedStatefulHelperUses : List (String × String × String) := %s"
+               % llist("(%s, %s, %s)" % (lstr(a), lstr(b), lstr(c)) for a, b, c in sorted(set(uses))))
+    # the two memo caches on shared objects
+    memo = []
+    t = parse(repo, "suds/xsd/sxbasic.py")
+    tc = find_class(t, "TypedContent", "suds/xsd/sxbasic.py")
+    memo += [("TypedContent.%s" % m, tg, k) for m, tg, k in _self_writes(tc)]
+    t = parse(repo, "suds/sudsobject.py")
+    fc = find_class(t, "Factory", "suds/sudsobject.py")
+    memo += [("sudsobject.Factory.%s" % m, tg, k) for m, tg, k in _self_writes(fc)]
+    out.append("/-- C13: stores on shared schema objects / the class-level object factory. -/")
+    out.append("def sharedMemoWrites : List (String × String × String) := %s"
+               % llist("(%s, %s, %s)" % (lstr(a), lstr(b), lstr(c)) for a, b, c in sorted(set(memo))))
+
+
+TABLES = [t_encoder, t_namespaces, t_boolean, t_parser_sites, t_reply_status, t_options, t_plugins, t_shared_state]
 
 
 def generate(repo):
